@@ -237,6 +237,14 @@ class Canon:
         if isinstance(e, ast.Call) and isinstance(e.func, ast.Name) and e.func.id == "int" and len(e.args) == 2 and isinstance(e.args[1], ast.Constant) and e.args[1].value == 16 \
                 and isinstance(e.args[0], ast.Call) and norm(e.args[0].func) in ("binascii.hexlify", "hexlify", "b2h") and len(e.args[0].args) == 1:
             return ast.Call(ast.Attribute(ast.Name("int", ast.Load()), "from_bytes", ast.Load()), [e.args[0].args[0], ast.Constant("big")], [])
+        if isinstance(e, ast.Call) and isinstance(e.func, ast.Name) and e.func.id == "bool" and len(e.args) == 1 and not e.keywords and self.is_int(e.args[0]):
+            return ast.Compare(e.args[0], [ast.NotEq()], [ast.Constant(0)])
+        if isinstance(e, ast.Call) and isinstance(e.func, ast.Attribute) and e.func.attr == "join" and isinstance(e.func.value, ast.Constant) and e.func.value.value in (b"", "") \
+                and len(e.args) == 1 and isinstance(e.args[0], (ast.List, ast.Tuple)) and e.args[0].elts and not any(isinstance(x, ast.Starred) for x in e.args[0].elts):
+            out = e.args[0].elts[0]
+            for x in e.args[0].elts[1:]:
+                out = ast.BinOp(out, ast.Add(), x)
+            return self._fold(out) if False else out
         if isinstance(e, ast.Call) and isinstance(e.func, ast.Name) and e.func.id == "divmod" and len(e.args) == 2 and not e.keywords:
             return ast.Tuple([self._fold(ast.BinOp(copy.deepcopy(e.args[0]), ast.FloorDiv(), copy.deepcopy(e.args[1]))),
                               self._fold(ast.BinOp(copy.deepcopy(e.args[0]), ast.Mod(), copy.deepcopy(e.args[1])))], ast.Load())
@@ -378,6 +386,21 @@ def _cmp_atoms(canon, left, op, right, leaf):
         import operator
         fn = {ast.Eq: operator.eq, ast.NotEq: operator.ne, ast.Lt: operator.lt, ast.Gt: operator.gt, ast.LtE: operator.le, ast.GtE: operator.ge}[type(op)]
         return bool(fn(left.value, right.value))
+    # integer expression against a constant: everything becomes `expr < K` (possibly negated)
+    if isinstance(op, (ast.Lt, ast.Gt, ast.LtE, ast.GtE)):
+        for x, k, flip in ((left, right, False), (right, left, True)):
+            if isinstance(k, ast.Constant) and isinstance(k.value, int) and not isinstance(k.value, bool) and not isinstance(x, ast.Constant) and canon.is_int(x):
+                o = type(op)
+                if flip:
+                    o = {ast.Lt: ast.Gt, ast.Gt: ast.Lt, ast.LtE: ast.GtE, ast.GtE: ast.LtE}[o]
+                xt = norm(x)
+                if o is ast.Lt:
+                    return leaf(ast.Compare(x, [ast.Lt()], [ast.Constant(k.value)]), "%s < %d" % (xt, k.value))
+                if o is ast.LtE:
+                    return leaf(ast.Compare(x, [ast.Lt()], [ast.Constant(k.value + 1)]), "%s < %d" % (xt, k.value + 1))
+                if o is ast.GtE:
+                    return f_not(leaf(ast.Compare(x, [ast.Lt()], [ast.Constant(k.value)]), "%s < %d" % (xt, k.value)))
+                return f_not(leaf(ast.Compare(x, [ast.Lt()], [ast.Constant(k.value + 1)]), "%s < %d" % (xt, k.value + 1)))
     if isinstance(op, (ast.Eq, ast.NotEq)):
         a, b = sorted([lt, rt])
         f = leaf(ast.Compare(left if lt == a else right, [ast.Eq()], [right if lt == a else left]), "%s == %s" % (a, b))
@@ -705,6 +728,36 @@ class SymWalker:
             return self._dedupe(res)
         if isinstance(st, (ast.For, ast.AsyncFor, ast.While)):
             is_for = not isinstance(st, ast.While)
+            if is_for and not isinstance(st, ast.AsyncFor):
+                # a loop over a literal tuple / list is the sequence of its iterations
+                unrolled, rest = [], []
+                for s in states:
+                    self.env = s.env
+                    it = self.sub(st.iter)
+                    if isinstance(it, (ast.Tuple, ast.List)) and 0 < len(it.elts) <= 8 and not any(isinstance(x, ast.Starred) for x in it.elts):
+                        self._calls(st.iter, st, s.reach)
+                        frame = LoopCtx(st, it, norm(st.target), s.reach)
+                        frame.unrolled = True
+                        frame.breaks, frame.continues = [], []
+                        self.loop_stack.append(frame)
+                        cur = [s]
+                        for elt in it.elts:
+                            for c_ in cur:
+                                self.env = c_.env
+                                self._bind(st.target, copy.deepcopy(elt))
+                            out = self.block(st.body, cur)
+                            cur = self._dedupe(out + frame.continues)
+                            frame.continues = []
+                        self.loop_stack.pop()
+                        if st.orelse and cur:
+                            cur = self.block(st.orelse, cur)
+                        unrolled += cur + frame.breaks
+                    else:
+                        rest.append(s)
+                if unrolled and not rest:
+                    return self._dedupe(unrolled)
+                if unrolled:
+                    return self._dedupe(unrolled + self.stmt(st, rest))
             assigned = self._assigned(st.body) | (self._assigned([st.target]) if is_for else set())
             self.loop_in[id(st)] = [State(dict(s.env), s.reach) for s in states]
             outs = []
@@ -732,6 +785,10 @@ class SymWalker:
                 after = self.block(st.orelse, after)
             return after
         if isinstance(st, (ast.Break, ast.Continue)):
+            top = self.loop_stack[-1] if self.loop_stack else None
+            if top is not None and getattr(top, "unrolled", False):
+                (top.breaks if isinstance(st, ast.Break) else top.continues).extend(states)
+                return []
             for s in states:
                 self._effect("break" if isinstance(st, ast.Break) else "continue", st, s.reach)
             return []
@@ -822,6 +879,8 @@ class SymWalker:
         for n in ast.walk(e):
             if isinstance(n, ast.Call):
                 subbed = self.sub(n)
+                if not isinstance(subbed, ast.Call):
+                    continue        # canonicalised away (bool(int), divmod, inlined helper ...)
                 self._effect("call", st, reach, call=subbed, raw=n, top=(top and n is e))
                 f = n.func
                 if isinstance(f, ast.Attribute) and isinstance(f.value, ast.Name) and f.attr in MUTATORS and f.value.id in self.env:
@@ -894,6 +953,7 @@ def _handler_label(h):
 class LoopCtx:
     def __init__(self, node, iter_expr, target, reach=True):
         self.reach = reach
+        self.unrolled = False
         self.node = node
         self.iter = iter_expr
         self.target = target
